@@ -268,6 +268,10 @@ func genShapes(ps int, quick bool) []Shape {
 			}
 		}
 	}
+	// several events that fill a page exactly together (two halves, four quarters): the next event starts on a fresh page
+	// while the full page keeps more than one event start
+	h, q4 := (ps-28)/2-4, (ps-28)/4-4
+	seqs = append(seqs, []int{h, h}, []int{h, h, 10}, []int{h, h, ps - 28 - 4}, []int{q4, q4, q4, q4}, []int{q4, q4, q4, q4, 3000}, []int{10, h - 14, h, 10})
 	var out []Shape
 	chunkModes := []int{queuedrv.ChunkOne, queuedrv.ChunkFirst, queuedrv.ChunkPage, queuedrv.ChunkTailByte}
 	for _, sq := range seqs {
@@ -291,6 +295,7 @@ func queueAlphabet(ps int, quick bool) []Q {
 		{K: queuedrv.QWrite, A: 10, B: queuedrv.ChunkOne},
 		{K: queuedrv.QWrite, A: pay - 4, B: queuedrv.ChunkFirst},
 		{K: queuedrv.QWrite, A: pay - 3, B: queuedrv.ChunkOne},
+		{K: queuedrv.QWrite, A: pay/2 - 4, B: queuedrv.ChunkOne}, // two of them fill a page exactly
 		{K: queuedrv.QWrite, A: 3000, B: queuedrv.ChunkPage},
 		{K: queuedrv.QWritePart, A: 2500, B: queuedrv.ChunkPage},
 		{K: queuedrv.QFlush},
@@ -392,6 +397,24 @@ func runQueueCheck(ctx *core.Ctx, pool *par.Pool, id string) {
 		total.States += st.States
 		total.Transitions += st.Transitions
 		ctx.Set("depth_"+c.String(), st.Depth)
+	}
+	// (ii-b) the same search from queues whose tail page is exactly full and holds several event starts (the next
+	// event starts on a fresh page; after a reopen the writer reloads the full page)
+	{
+		c := QCfgSpec{File: "C", Buffer: 5}
+		qc, _ := c.cfg()
+		pay := qc.File.PageSize - 28
+		h, q4 := pay/2-4, pay/4-4
+		seeds := [][]Q{
+			{{K: queuedrv.QWrite, A: h}, {K: queuedrv.QWrite, A: h}, {K: queuedrv.QFlush}},
+			{{K: queuedrv.QWrite, A: q4}, {K: queuedrv.QWrite, A: q4}, {K: queuedrv.QWrite, A: q4}, {K: queuedrv.QWrite, A: q4}, {K: queuedrv.QFlush}},
+			{{K: queuedrv.QWrite, A: h}, {K: queuedrv.QWrite, A: h}, {K: queuedrv.QFlush}, {K: queuedrv.QReopen}, {K: queuedrv.QReadAll}, {K: queuedrv.QWrite, A: 100}, {K: queuedrv.QFlush}},
+		}
+		sd := depth - 2
+		st := qBFSroots(ctx, pool, c, seeds, queueAlphabet(qc.File.PageSize, quick), sd, false, true, owns, nil)
+		total.States += st.States
+		total.Transitions += st.Transitions
+		ctx.Set("depth_full-tail-page_"+c.String(), st.Depth)
 	}
 	// (iii) counters across failed flushes: fill-until-error histories on small bounded files
 	if id == "C17" {
